@@ -169,7 +169,7 @@ def run_chain(job, reverse):
         g = mods[i]
         out = []
         for t in INPUTS[:90]:
-            o = impl.run(g.parse, e1.fresh(t), 0, True, spans=False, time_limit=1.0)
+            o = impl.run(g.parse, e1.fresh(t), 0, True, spans=False, time_limit=1.0, patient=True)
             out.append((o['kind'], o.get('value'), o.get('index')))
         return out
 
@@ -231,9 +231,9 @@ def run_chain(job, reverse):
             # equals the one obtained with a fresh text object
             for t in INPUTS[:70]:
                 seqm = [0, len(mods) - 1, 0]
-                freshes = [impl.run(mods[mi2].parse, e1.fresh(t), 0, True, time_limit=1.0) for mi2 in seqm]
+                freshes = [impl.run(mods[mi2].parse, e1.fresh(t), 0, True, time_limit=1.0, patient=True) for mi2 in seqm]
                 # (the three parses of the one object follow each other directly)
-                sames = [impl.run(mods[mi2].parse, t, 0, True, time_limit=1.0) for mi2 in seqm]
+                sames = [impl.run(mods[mi2].parse, t, 0, True, time_limit=1.0, patient=True) for mi2 in seqm]
                 for mi2, same, fresh_ in zip(seqm, sames, freshes):
                     bump('cases')
                     if (same['kind'], same.get('value'), same.get('index')) != (fresh_['kind'], fresh_.get('value'), fresh_.get('index')):
